@@ -471,7 +471,7 @@ def run(tier, seed, t0):
     # AddressSanitizer, valgrind memcheck and Miri (a memory error is the crash the property excludes)
     sanit.run_pass(acc, PROP, tier, seed,
                    quick={"asan": 480, "memcheck": 96},
-                   thorough={"asan": 2400, "memcheck": 640, "miri": 192})
+                   thorough={"asan": 2400, "memcheck": 480, "miri": 128})
     return runner.finish(
         PROP, tier, seed, "exploration", acc, t0,
         rule="(c) every function listed by std.objectFieldsAll(std) at run time x boundary argument "
